@@ -24,6 +24,8 @@ member does), in any interleaving, any depth.
 4. `filter_fresh_after_rejuvenate`: after a refresh from the youngest member every `filter.all`
    is the configured ranges on the member's *current* events and `manual`
    (`stale_box_witness` for the old comparison).
+5. `narrow_rootIds_witness`: root indices are unbounded in the model; a bounded-width `_root_ids`
+   wraps and names other events.
 -/
 namespace DclabModel.C04
 open DclabModel.Hier
@@ -260,5 +262,21 @@ theorem intermediate_refresh_witness :
 example : ((run true true D0 (initChain true true D0 2) h1).head?.map
     (fun c => (c.ev, excl c, c.gM))) = some ([2, 3, 4, 5, 6, 7], [5], [5]) := by
   decide +kernel
+
+/-! ## `_root_ids` must hold root indices exactly
+
+The model keeps root indices as unbounded `Nat`; `CI` (`rootIds = ev`) is the hypothesis under
+which `retrieveSnap` is correct. Storing `_root_ids` in an integer type sized after the *parent*
+(e.g. 8 bits when the parent has ≤ 255 events) breaks it as soon as a small member holds large
+root indices. -/
+
+/-- a member showing root events 290 and 291 with the first one excluded: with `_root_ids`
+wrapped to 8 bits the retrieved exclusion is root event 34, which is not one of its events;
+with exact `_root_ids` it is root event 290 -/
+theorem narrow_rootIds_witness :
+    let c : Level := { freshLevel 0 with ev := [290, 291], len := 2, manual := [false, true] }
+    (retrieveSnap { c with rootIds := c.ev.map (· % 256) }).manRoot = [34] ∧
+      (retrieveSnap { c with rootIds := c.ev }).manRoot = [290] := by
+  decide
 
 end DclabModel.C04
